@@ -45,6 +45,7 @@ func c03Spaces(tier string) []pairLeg {
 	}
 	// complete triples over arrays of numbers that are neighbouring float64 values
 	add("Uulp", UlpArrays())
+	add("Ustr", LookAlikeStringArrays())
 	return legs
 }
 
@@ -52,6 +53,19 @@ func c03Spaces(tier string) []pairLeg {
 func UlpArrays() *TextSet {
 	return memoize("ulp-arrays", func() *TextSet {
 		alpha := []V{0.3, 0.30000000000000004, 9007199254740992.0, 9007199254740994.0}
+		var out []V
+		for _, a := range gen.Arrays(2, alpha) {
+			out = append(out, a, map[string]interface{}{"m": a})
+		}
+		return NewTextSet(out)
+	})
+}
+
+// LookAlikeStringArrays: arrays (length <= 2, at the root and under a key) over strings that differ only in line
+// ends, white space or Unicode composition.
+func LookAlikeStringArrays() *TextSet {
+	return memoize("lookalike-strings", func() *TextSet {
+		alpha := []V{"x\r\ny", "x\ny", "x\ry", "a\tb", "a  b", "\u00e9", "e\u0301"}
 		var out []V
 		for _, a := range gen.Arrays(2, alpha) {
 			out = append(out, a, map[string]interface{}{"m": a})
